@@ -258,8 +258,20 @@ void cmb_resourcepool_start_recording(struct cmb_resourcepool *rsp)
 
     const struct cmi_resourcebase *rbp = (struct cmi_resourcebase *)rsp;
     cmb_assert_release(rbp->cookie == CMI_INITIALIZED);
+    /*
+     * Resuming after a pause? The pause itself is not part of the history:
+     * the sample that closed the previous recording gets no duration.
+     */
+    struct cmb_timeseries *ts = &(rsp->history);
+    const bool resuming = !rsp->is_recording && (cmb_timeseries_count(ts) > 0u);
+
     rsp->is_recording = true;
     record_sample(rsp);
+
+    const uint64_t n = cmb_timeseries_count(ts);
+    if (resuming && (n >= 2u)) {
+        ts->wa[n - 2u] = 0.0;
+    }
 }
 
 void cmb_resourcepool_stop_recording(struct cmb_resourcepool *rsp)
